@@ -385,7 +385,8 @@ luaL_setfuncs({LUA_state_var}, {LUA_class_reg}, 0);
             for node in overloads:
                 if node.doxygen:
                     self.write_doxygen(body, node.doxygen)
-        if fmt.LUA_used_param_state:
+        if fmt.LUA_used_param_state or self.language == "c":
+            # C requires a name for every parameter of a definition.
             append_format(
                 body,
                 "static int {LUA_name_impl}" "(lua_State *{LUA_state_var})",
